@@ -57,6 +57,19 @@ Cond_C05_Path == (IsW /\ Ev.passive /\ Ev.target = "match" /\ ~Ev.mp) =>
 Cond_C06_PathPreload == (IsW /\ Ev.passive /\ Ev.target = "preload" /\ ~Ev.mp /\ Tgt # None /\ Ev.e = "nil") =>
     LET ks == {k \in 1 .. Len(BT) : BT[k].path = Ev.segs} IN
     \A k \in ks : \A j \in 1 .. Len(BT[k].cls) : (Len(Ev.segs) = 0 /\ j = 1) \/ \E i \in 1 .. Len(Ev.loads) : Ev.loads[i] = BT[k].cls[j]
+\* entity access (preload / entity selector with the bytes-consuming visitor): the whole entity, none of
+\* the blocks of its entries, or an error when one of its blocks is unavailable
+TgtEnt == {k \in 1 .. Len(BT) : BT[k].path = Ev.segs}
+Below == {k \in 1 .. Len(BT) : IsProperPrefix(Ev.segs, BT[k].path)}
+SetOfSeq(s) == {s[k] : k \in 1 .. Len(s)}
+EntityC == UNION {SetOfSeq(BT[k].cls) : k \in TgtEnt}
+BelowOnlyC == UNION {SetOfSeq(BT[k].cls) : k \in Below} \ (EntityC \cup UNION {SetOfSeq(BT[k].cls) : k \in {j \in 1 .. Len(BT) : IsProperPrefix(BT[j].path, Ev.segs)}})
+Cond_C06_Entity == (IsW /\ Ev.consume /\ Ev.target \in {"entity", "preload"} /\ ~Ev.mp /\ Tgt # None) =>
+    IF Ev.missing = <<>>
+    THEN /\ Ev.e = "nil"
+         /\ \A c \in EntityC : (Len(Ev.segs) = 0 /\ c = BT[1].cls[1]) \/ c \in SetOfSeq(Ev.loads)
+         /\ IsDir(Tgt) => SetOfSeq(Ev.loads) \cap BelowOnlyC = {}
+    ELSE Ev.e # "nil"
 \* blocks along the path are first requested in root-to-target order
 FirstIdx(c) == CHOOSE i \in 1 .. Len(Ev.loads) : Ev.loads[i] = c /\ \A j \in 1 .. (i - 1) : Ev.loads[j] # c
 MinDepth(c) == CHOOSE d \in {Len(BT[k].path) : k \in EntitiesOf(c)} : \A k \in EntitiesOf(c) : d <= Len(BT[k].path)
@@ -74,6 +87,7 @@ Inv_C03_PathNodes == Chk("Inv_C03_PathNodes", Cond_C03_PathNodes)
 Inv_C03_NoMP == Chk("Inv_C03_NoMP", Cond_C03_NoMP)
 Inv_C05_Path == Chk("Inv_C05_Path", Cond_C05_Path)
 Inv_C06_PathPreload == Chk("Inv_C06_PathPreload", Cond_C06_PathPreload)
+Inv_C06_Entity == Chk("Inv_C06_Entity", Cond_C06_Entity)
 Inv_C20_PathOrder == Chk("Inv_C20_PathOrder", Cond_C20_PathOrder)
 Alias == [l |-> l]
 =============================================================================
